@@ -3,6 +3,7 @@ package main
 import (
 	"fmt"
 	"go/types"
+	"strings"
 
 	"golang.org/x/tools/go/ssa"
 )
@@ -49,6 +50,39 @@ func (p *Path) codecLookup(bs []*Term) *codecEntry {
 		return nil
 	}
 	return p.codecTable()[id]
+}
+
+// codecTokensIn finds every codec token embedded in a byte string (a buffer that collected several encodings, a
+// file written in pieces): "<magic><kind>:<6 digits>".
+func (p *Path) codecTokensIn(bs []*Term) []*codecEntry {
+	b := make([]byte, len(bs))
+	for i, t := range bs {
+		if t != nil && t.IsConst() {
+			b[i] = byte(t.Val)
+		}
+	}
+	c := string(b)
+	var out []*codecEntry
+	for off := 0; ; {
+		i := strings.Index(c[off:], codecMagic)
+		if i < 0 {
+			break
+		}
+		start := off + i
+		off = start + len(codecMagic)
+		j := strings.IndexByte(c[off:], ':')
+		if j < 0 || j > 16 || off+j+7 > len(c) {
+			continue
+		}
+		var id int
+		if _, err := fmt.Sscanf(c[off+j+1:off+j+7], "%d", &id); err != nil {
+			continue
+		}
+		if e := p.codecTable()[id]; e != nil {
+			out = append(out, e)
+		}
+	}
+	return out
 }
 
 func deepCopy(v Value, seen map[*Value]*Value) Value {
